@@ -1196,12 +1196,12 @@ def run(ctx):
     # objects that change in place: the law is a function of the current values; an identity-keyed memo is refuted
     ctx.mc('MC_EqHist', 'MC_EqHist_quick.cfg' if ctx.quick else 'MC_EqHist_thorough.cfg')
     if not ctx.quick:
-        ctx.mc('MC_EqHist', 'MC_EqHist_memo.cfg', must_fail='MemoAdmitted')
-        ctx.mc('MC_EqHist', 'MC_EqHist_cmemo.cfg', must_fail='ClassMemoAdmitted')
+        ctx.mc('MC_EqHist', 'MC_EqHist_memo.cfg', must_fail='MemoAdmitted', coverage=False)
+        ctx.mc('MC_EqHist', 'MC_EqHist_cmemo.cfg', must_fail='ClassMemoAdmitted', coverage=False)
     # wide containers: the walk over the members accumulates the law; an address-keyed memo fed with recycled temporaries is refuted
     if not ctx.quick:
         ctx.mc('MC_EqWide', 'MC_EqWide_thorough.cfg')
-        ctx.mc('MC_EqWide', 'MC_EqWide_memo.cfg', must_fail='MemoWalkSound')
+        ctx.mc('MC_EqWide', 'MC_EqWide_memo.cfg', must_fail='MemoWalkSound', coverage=False)
     # sessions first: what a call answers may not depend on what was compared before it - the histories are replayed before
     # the process has seen any other comparison of the run
     s2c_hist(ctx, ctx.generate('MC_EqHist', 'MC_EqHist_gen3.cfg' if ctx.quick else 'MC_EqHist_gen5.cfg'))
